@@ -264,6 +264,11 @@ func (p *Provider) getLightBlock(ctx context.Context, height int64) (*lightBlock
 		pf.RecordFailure()
 		return nil, nil, err
 	}
+	if clb.Height != lb.Height {
+		// The light block inside the response is for another height than the response claims.
+		pf.RecordBadPeer()
+		return nil, nil, consensus.ErrVersionNotFound
+	}
 
 	rsp := &lightBlock{
 		lb:  &lb,
